@@ -1,7 +1,7 @@
 from harness import evprops, hcommon, hprop_run, sysprops
 
 PROP = "C03"
-EXTRA_PROPS = ("C03u", "C03m", "C03r", "C03d", "C03y", "C03z") if PROP == "C03" else ()    # unbounded K = 1: any single lost File Data PDU, any file
+EXTRA_PROPS = ("C03u", "C03m", "C03r", "C03d", "C03y", "C03z", "C03w") if PROP == "C03" else ()    # unbounded K = 1: any single lost File Data PDU, any file
 RULES = {
  "C02": "fault-free link: modes x closure x checksum types x sizes 0..13 x random CRC flag / id widths / seq widths / segment length / "
         "max packet length / NAK mode x destination as file / directory / existing file x pacing (0-3 extra empty calls per round), "
